@@ -140,6 +140,7 @@ func instrument(repo, out string, pl pkgPlan, overlay map[string]string, rep *re
 		name string
 		f    *ast.File
 		head string // build constraint line to keep
+		keep bool
 	}
 	var files []*pf
 	var astFiles []*ast.File
@@ -172,6 +173,9 @@ func instrument(repo, out string, pl pkgPlan, overlay map[string]string, rep *re
 		}
 		files = append(files, &pf{name: n, f: f, head: head})
 		astFiles = append(astFiles, f)
+		if head != "" {
+			files[len(files)-1].keep = true // guarded hook file: harness plumbing, compiled as it is
+		}
 	}
 	if len(files) == 0 {
 		return nil
@@ -190,6 +194,9 @@ func instrument(repo, out string, pl pkgPlan, overlay map[string]string, rep *re
 	}
 
 	for _, p := range files {
+		if p.keep {
+			continue
+		}
 		changed := false
 		needVrt := false
 		iterN := 0
